@@ -66,6 +66,8 @@ pub struct Emitter {
     /// a panic is reported as outcome `P` but is not by itself a violation (used where the
     /// harness deliberately builds panicking closures and the model must predict the panic)
     pub panic_ok: bool,
+    /// when > 0: a single allocation request above this many bytes during a case is a violation
+    pub alloc_limit: usize,
 }
 
 impl Emitter {
@@ -78,15 +80,21 @@ impl Emitter {
             tags: BTreeMap::new(),
             replay: false,
             panic_ok: false,
+            alloc_limit: 0,
         }
     }
     /// record one case. `line` must not contain tabs or newlines.
     pub fn case<F: FnOnce() -> Obs>(&mut self, line: &str, f: F) {
+        crate::alloc_count::reset();
         let r = catch_unwind(AssertUnwindSafe(f));
-        let obs = match r {
+        let peak = crate::alloc_count::max();
+        let mut obs = match r {
             Ok(o) => o,
             Err(_) => Obs { out: "P".to_string(), violation: if self.panic_ok { None } else { Some("panic".to_string()) }, tags: vec!["panic"] },
         };
+        if self.alloc_limit > 0 && peak > self.alloc_limit + line.len() && obs.violation.is_none() {
+            obs.violation = Some(format!("allocation request of {} bytes, out of proportion to the input", peak));
+        }
         writeln!(self.cases, "{}", line).unwrap();
         let v = match &obs.violation { Some(w) => format!("V:{}", w.replace('\t', " ").replace('\n', " ")), None => "ok".to_string() };
         writeln!(self.imp, "{}\t{}\t{}", obs.out, v, obs.tags.join(",")).unwrap();
